@@ -66,6 +66,7 @@ def run(ctx):
         reqs.append("rxflush " + r["rxline"][3:] + ("" if r["flush_items"] == "-" else " " + r["flush_items"]))
     model = vlib.run_lines_parallel(vlib.MODELRUN, reqs)
     ok, model_ok, by_kind, delivered_by_flush, samples = 0, 0, {}, 0, []
+    bursts_sent, bursts_missed = 0, 0
     for (kind, cut, tx, script, want), line, r, mo in zip(cases, lines, res, model):
         by_kind[kind] = by_kind.get(kind, 0) + 1
         if r.get("error"):
@@ -102,6 +103,16 @@ def run(ctx):
             bad = "flush() returned None before a later call returned a message (%s)" % flushed[:80]
         if bad and rxlib.f11_known(ctx, "C14", tx, ev, [tx.H, b"NNNN"]):
             bad = None
+        if bad and got != expect:
+            # is it an end-of-input matter at all?  The same recording with 2.5 s of silence appended instead of the cut: if the
+            # messages are missing there too, the demodulator missed a burst (about one in a thousand does not synchronise or frame),
+            # which no flush can repair -- counted, bounded, not judged here
+            r2 = rxlib.run_rx([tx.line(script=script + ",S2.50")], check_model=False)[0]
+            ev2 = rxlib.parse_events(r2["impl"]) if not r2.get("error") else []
+            got2 = [("som", e["text"]) if e["kind"] == "som" else ("eom", None) for e in ev2 if e["kind"] in ("som", "eom")]
+            if got2 != expect:
+                bursts_missed += 1
+                bad = None
         if bad:
             ctx.violation("property", "%s [%s, cut %.3f s after the last burst, %s]" % (bad, kind, cut, tx.describe()),
                           {"input": line, "events": r["impl"][:2000], "flushed": flushed})
@@ -111,6 +122,10 @@ def run(ctx):
                 delivered_by_flush += 1
         if len(samples) < 3 and fmsgs:
             samples.append({"kind": kind, "cut_after_s": cut, "rate": tx.rate, "flushed": flushed[:80]})
+    ctx.coverage["recordings_with_a_burst_missed_even_with_a_long_tail"] = bursts_missed
+    if len(cases) >= 40 and bursts_missed > 0.03 * len(cases):
+        ctx.violation("property", "%d of %d recordings lose a burst even when two and a half seconds of silence follow: far more than the "
+                      "characterised rate (about 1 burst in 1000)" % (bursts_missed, len(cases)), {"lost": bursts_missed, "n": len(cases)})
     # the documented way to reuse a receiver: flush() at the end of one recording, reset(), next recording.  A recording whose
     # StartOfMessage was reported, then reset(), then a close-cut recording of the SAME header: flushing must deliver it again
     reuse_ok = 0
